@@ -133,6 +133,42 @@ ops_src.CALLS["HTMLDependency_serialize"] = lambda a: type(a[0]).serialize_to_sc
 ops_src.CALLS["HTMLTextDocument_render"] = lambda a: _doc().render(a[0], lib_prefix=a[1], include_version=a[2])
 
 
+def _prim_call_kw(a):
+    def f(a, b, *, c=None, d=False):      # noqa: ANN001
+        return [a, b, c, d]
+    return f(**a[0])
+
+
+def _prim_mk_tag(a):
+    import htmltools
+    return htmltools.Tag(a[0], *a[1], **a[2])
+
+
+def _pattern():
+    import ops_json
+    return ops_json.pattern()
+
+
+def _re():
+    import re
+    return re
+
+
+def _json():
+    import json
+    return json
+
+
+ops_src.CALLS["prim_replace_first"] = lambda a: a[0].replace(a[1], a[2], 1)
+ops_src.CALLS["prim_findall"] = lambda a: _re().findall(_pattern(), a[0])
+ops_src.CALLS["prim_sub"] = lambda a: _re().sub(_pattern(), "", a[0])
+ops_src.CALLS["prim_json_loads"] = lambda a: _json().loads(a[0])
+ops_src.CALLS["prim_json_dumps"] = lambda a: _json().dumps(a[0], indent=a[1])
+ops_src.CALLS["prim_str"] = lambda a: str(a[0])
+ops_src.CALLS["prim_mk_tag"] = _prim_mk_tag
+ops_src.CALLS["prim_call_kw"] = _prim_call_kw
+
+
 @op("srcc13")
 def _srcc13(t: Toks) -> str:
     global _RANKS
